@@ -23,6 +23,10 @@ func c06Trees(fsType string) [][]fsx.Op {
 		append(append([]fsx.Op{}, w...), fsx.Op{K: "WriteFile", P: "/w/a", Data: "AAAA", Perm: 0o644}, fsx.Op{K: "WriteFile", P: "/w/b", Data: "BB", Perm: 0o644}),
 		append(append([]fsx.Op{}, w...), fsx.Op{K: "Mkdir", P: "/w/a", Perm: 0o755}, fsx.Op{K: "WriteFile", P: "/w/b", Data: "BB", Perm: 0o644}, fsx.Op{K: "Link", P: "/w/b", Q: "/w/d/a"}),
 	}
+	// every tree also holds a file as large as the initial buffer of ReadFile (512 bytes)
+	for i := range t {
+		t[i] = append(t[i], fsx.Op{K: "WriteFile", P: "/w/big", Data: strings.Repeat("B", 512), Perm: 0o644})
+	}
 	return t
 }
 
